@@ -40,7 +40,18 @@ func TestVerifC19P(t *testing.T) {
 	var outs vres.Outcomes
 	idx := 0
 	for _, sig := range []syscall.Signal{syscall.SIGTERM, syscall.SIGINT} {
-		for _, place := range []string{"idle", "waiting-for-headers", "mid-body", "probe-in-flight", "probe-hanging"} {
+		for _, place := range []string{"idle", "waiting-for-headers", "mid-body", "probe-in-flight", "probe-hanging",
+			"waiting-for-headers+same", "waiting-for-headers+other", "mid-body+same", "mid-body+other"} {
+			// "+same"/"+other": a second stop signal 150 ms after the first, while the drain is
+			// still under way (an impatient operator or a supervisor repeating itself)
+			second := syscall.Signal(0)
+			if i := strings.Index(place, "+"); i >= 0 {
+				second = sig
+				if place[i:] == "+other" {
+					second = map[syscall.Signal]syscall.Signal{syscall.SIGTERM: syscall.SIGINT, syscall.SIGINT: syscall.SIGTERM}[sig]
+				}
+				place = place[:i]
+			}
 			idx++
 			if idx%shards != shard {
 				continue
@@ -55,7 +66,7 @@ func TestVerifC19P(t *testing.T) {
 			}
 			port := freePort()
 			yaml := fmt.Sprintf("server:\n  port: %d\n  timeouts:\n    shutdown: 2\nbackends:\n  - name: b0\n    address: %q\nload_balancer:\n  strategy: round_robin\n  websocket_pool:\n    enabled: true\n    max_idle: 2\n    max_active: 4\nhealth_checks:\n  active:\n    enabled: true\n    interval: 9\n    timeout: 8\n    path: %q\nlogging:\n  level: error\n  format: json\n", port, be.URL(), wire.ProbePath)
-			path := filepath.Join(dir, fmt.Sprintf("%s-%d.yaml", place, sig))
+			path := filepath.Join(dir, fmt.Sprintf("%s-%d-%d.yaml", place, sig, second))
 			os.WriteFile(path, []byte(yaml), 0o644)
 			cmd := exec.Command(bin, "-config", path)
 			var out bytes.Buffer
@@ -66,8 +77,11 @@ func TestVerifC19P(t *testing.T) {
 			exited := make(chan error, 1)
 			go func() { exited <- cmd.Wait() }()
 			desc := fmt.Sprintf("%v while %s", sig, place)
+			if second != 0 {
+				desc += fmt.Sprintf(", then %v 150ms later", second)
+			}
 			fail := func(key, what string) {
-				r.Violate("C19/process/"+key, desc+": "+what+" | output: "+lastLines(out.String(), 3), 1, map[string]interface{}{"engine": "P", "test": "TestVerifC19P", "signal": sig.String(), "placement": place})
+				r.Violate("C19/process/"+key, desc+": "+what+" | output: "+lastLines(out.String(), 3), 1, map[string]interface{}{"engine": "P", "test": "TestVerifC19P", "signal": sig.String(), "placement": place, "second_signal": int(second)})
 			}
 			// wait until it serves
 			e := &exch{addr: fmt.Sprintf("127.0.0.1:%d", port)}
@@ -124,6 +138,10 @@ func TestVerifC19P(t *testing.T) {
 			}
 			t0 := time.Now()
 			cmd.Process.Signal(sig)
+			if second != 0 {
+				time.Sleep(150 * time.Millisecond)
+				cmd.Process.Signal(second)
+			}
 			var werr error
 			didExit := false
 			select {
@@ -157,11 +175,11 @@ func TestVerifC19P(t *testing.T) {
 			if after := be.ProbeCount(); after != before {
 				fail("probe-after-exit", fmt.Sprintf("%d probes reached the backend after the process had exited", after-before))
 			}
-			outs.Add(fmt.Sprintf("%s/%v/exit=%v/%v", place, sig, didExit, werr == nil))
+			outs.Add(fmt.Sprintf("%s/%v+%v/exit=%v/%v", place, sig, second, didExit, werr == nil))
 			be.Close()
 		}
 	}
 	r.AddScenario(vres.Scenario{Name: "signals-at-placements", Engine: "P", Evaluations: evals, Distinct: int64(outs.N()), Outcomes: outs.N(),
 		Rule:  "the real binary (shutdown timeout 2s, active probing every 2s, pool enabled) receives SIGTERM or SIGINT at each placement; exit status 0 within the timeout, in-flight request completed, no probe after exit",
-		Bound: "2 signals x 5 placements", Exhaustive: true, Sample: outs.Map(), Extra: map[string]interface{}{"wall_s": time.Since(start).Seconds()}})
+		Bound: "2 signals x (5 placements + 2 in-flight placements x 2 repeated signals)", Exhaustive: true, Sample: outs.Map(), Extra: map[string]interface{}{"wall_s": time.Since(start).Seconds()}})
 }
